@@ -3,6 +3,7 @@ SPECIFICATION Spec
 CONSTANTS
   MaxList = 2
   StSet = {"ok", "temp", "perm"}
+  Scopes = {"global", "source", "dest"}
   Devs = {}
   Gen = FALSE
 VIEW View
